@@ -17,6 +17,9 @@ CHECKS.update({
 "C08":("exploration","Supervisor specs (type x strategy x KeepOrder x Significant x auto-shutdown, 1-4 children) driven by event sequences (child exits with five reasons, Disable/Enable/StartChild, stranger exit signals); after each event the real supervisor (Children(), liveness, start counts, start order, observed stop order, own fate) is compared with an executable reference model written from the documented rules; an overlapping regime injects child exits back to back and checks order-independent facts."),
 "C09":("exploration","Failure schedules on the simulated clock (bursts, near-period gaps, drips) against Intensity 1-5 / Period 1-6 s for all supervisor types; sliding-window reference decides after every failure whether the supervisor must still run or must have stopped everything with the 'restart intensity exceeded' reason."),
 })
+CHECKS.update({
+"C17":("exploration","Applications (1-4 members, optional dependency) started 1-3 times in every mode, with failing Init, a member dying during start, concurrent member exits / kills and ApplicationStop / StopForce / StopWithTimeout calls from two clients; reference lifecycle model for start order, dependency order, callback counts, stop condition per mode, Terminate reason of this stop, state and restartability; a call that never returns is reported as a hang violation."),
+})
 NA={}
 def chk(pid):
     level,text=CHECKS[pid]
